@@ -773,6 +773,8 @@ type job struct {
 	resp    *respCase
 	sink    *sinkCase
 	tunnel  *tunnelCase
+	pipe    *pipeCase
+	dribble *dribbleCase
 }
 
 func (e *env) do(ctx *core.Ctx, j job) {
@@ -793,6 +795,10 @@ func (e *env) do(ctx *core.Ctx, j job) {
 		e.runSink(ctx, j.sink)
 	case j.tunnel != nil:
 		e.runTunnel(ctx, j.tunnel)
+	case j.pipe != nil:
+		e.runPipe(ctx, j.pipe)
+	case j.dribble != nil:
+		e.runDribble(ctx, j.dribble)
 	}
 }
 
@@ -840,6 +846,8 @@ func genJobs(ctx *core.Ctx, r *core.Rand, conf Conf, tag string) []job {
 	for i := 0; i < nGroup; i++ {
 		jobs = append(jobs, job{group: genGroup(r, conf, ns[i], id("g", i))})
 	}
+	// kept-alive connections whose client writes ahead (pipelined partial heads and bodies), dribbling peers
+	jobs = append(jobs, genAheadJobs(ctx, r, conf, id)...)
 	core.Shuffle(r, jobs)
 	return jobs
 }
@@ -879,6 +887,9 @@ func Run(ctx *core.Ctx) {
 		"slow origin side with every configured client-side limit (idle, read-header, read, WRITE, handshake) 1.5-4x shorter than its latency: response head, CONNECT target (slow dial, full accept queue, " +
 		"upstream proxy delaying its 200; ConnectTimeout longer), response body in pieces with pauses shorter / longer than WriteTimeout; client not taking a 1 GiB response (cut at writeStart + WriteTimeout, never when unset); " +
 		"tunnels (CONNECT; 101 upgrade, also inside an intercepted session) with fast and slow targets, echoed across pauses longer than every client-side limit incl. ReadTimeout or steadily for longer than that; " +
+		"kept-alive connections after 1-3 served requests stalling after k bytes of the next head (1 .. all but the last CRLF) or inside the body behind a complete head, the bytes sent in the SAME segment as the previous request(s) " +
+		"(pipelined, waiting in the proxy's reader while a fast or slow origin answers), right after the previous response, or after an idle gap; peers DRIBBLING a PROXY header (v1, v2), ClientHello, request head or the " +
+		"ClientHello inside an intercepted tunnel byte by byte with pauses of a quarter to a half of the limit for longer than limit + slack (cut at phaseStart + limit), a probe next to them; " +
 		"every case is non-trivial; distinct = distinct (configuration, case parameters)")
 	ctx.Assume("wall clock sampled: close instants and probe latencies are measured on the monotonic clock of the harness process; lower side sharp (1 ms), upper side with slack")
 	for _, c := range core.LoadCorpus(ctx.Root, "C15") {
@@ -894,6 +905,23 @@ func Run(ctx *core.Ctx) {
 		for _, st := range stacks {
 			r := ctx.Rng.Sub()
 			conf := Conf{Stack: st, L: genLimits(r)}
+			if st == "proxy+tls" {
+				// the limits of two phases that follow each other, in both orders (and never equal): the PROXY
+				// header wait must end at ITS limit also when the handshake's is shorter, and the other way round
+				if conf.L.TLS == conf.L.ProxyHdr {
+					conf.L.ProxyHdr += 60
+				}
+				if (si%2 == 0) != (conf.L.TLS < conf.L.ProxyHdr) {
+					conf.L.TLS, conf.L.ProxyHdr = conf.L.ProxyHdr, conf.L.TLS
+				}
+				if d := conf.L.TLS - conf.L.ProxyHdr; d > -60 && d < 60 {
+					if d < 0 {
+						conf.L.ProxyHdr += 60
+					} else {
+						conf.L.TLS += 60
+					}
+				}
+			}
 			plans = append(plans, plan{conf, genJobs(ctx, r, conf, fmt.Sprintf("%s%d", st, si))})
 		}
 	}
@@ -954,6 +982,10 @@ func Run(ctx *core.Ctx) {
 				ctx.Sample(j.sink)
 			case j.tunnel != nil:
 				ctx.Sample(j.tunnel)
+			case j.pipe != nil:
+				ctx.Sample(j.pipe)
+			case j.dribble != nil:
+				ctx.Sample(j.dribble)
 			}
 		}
 	}
@@ -1053,6 +1085,12 @@ func Replay(ctx *core.Ctx, raw json.RawMessage) {
 	case "tunnel":
 		j.tunnel = &tunnelCase{}
 		json.Unmarshal(raw, j.tunnel)
+	case "pipe":
+		j.pipe = &pipeCase{}
+		json.Unmarshal(raw, j.pipe)
+	case "dribble":
+		j.dribble = &dribbleCase{}
+		json.Unmarshal(raw, j.dribble)
 	case "warmup":
 		j.group = &groupCase{Kind: "group", Conf: k.Conf, ID: "warmup"}
 	default:
